@@ -793,6 +793,56 @@ pub fn ts_entries(db: &SimDatabase) -> Vec<u64> {
     Ts::ingredient(db).entries(db.zalsa()).map(|e| e.key().key_index().as_bits()).collect()
 }
 
+/// What the memo of a fixpoint function currently records (hook `salsa::verif::memo_summary`),
+/// translated into the program's terms.
+#[derive(Clone, Debug, Default, PartialEq, Eq)]
+pub struct MemoInfo {
+    pub node: usize,
+    pub has_value: bool,
+    pub verified_final: bool,
+    pub verified_at: usize,
+    /// cycle heads other than the node itself
+    pub other_heads: Vec<usize>,
+    pub fields: std::collections::BTreeSet<(usize, usize)>,
+    pub nodes: std::collections::BTreeSet<usize>,
+    pub durability: u8,
+}
+
+pub fn memo_info(db: &SimDatabase, node: usize) -> Option<MemoInfo> {
+    use salsa::plumbing::AsId;
+    let sh = &db.shared;
+    let name = match sh.prog.nodes[node].kind {
+        Kind::Fix | Kind::FixBad => "q_fix",
+        Kind::FixJ => "q_fixj",
+        _ => return None,
+    };
+    let s = salsa::verif::memo_summary(db, name, sh.key(node).as_id())?;
+    let keys: Vec<String> = sh.keys.lock().unwrap_or_else(|e| e.into_inner()).iter().map(|k| format!("({:?})", k.as_id())).collect();
+    let ins: Vec<String> = sh.ins.lock().unwrap_or_else(|e| e.into_inner()).iter().map(|k| format!("({:?})", k.as_id())).collect();
+    let node_of = |txt: &str| keys.iter().position(|k| txt.ends_with(k.as_str()));
+    let mut info = MemoInfo { node, has_value: s.has_value, verified_final: s.verified_final, verified_at: s.verified_at, durability: s.durability, ..Default::default() };
+    for h in &s.cycle_heads {
+        if let Some(x) = node_of(h) {
+            if x != node {
+                info.other_heads.push(x);
+            }
+        }
+    }
+    for e in &s.inputs {
+        if let Some(rest) = e.strip_prefix("In.f") {
+            let f = rest.chars().next().and_then(|c| c.to_digit(10)).unwrap_or(9) as usize;
+            if let Some(i) = ins.iter().position(|k| e.ends_with(k.as_str())) {
+                info.fields.insert((i, f));
+            }
+        } else if e.starts_with("q_") {
+            if let Some(x) = node_of(e) {
+                info.nodes.insert(x);
+            }
+        }
+    }
+    Some(info)
+}
+
 /// number of q_lru memos that currently hold a value (heap_size is declared as 1 per value)
 pub fn lru_cached_count(db: &SimDatabase) -> usize {
     let mu = <dyn salsa::Database>::memory_usage(db);
